@@ -15,6 +15,7 @@ from checks import risk_common
 def check(ctx: Ctx) -> None:
     singles, _ = risk_common.run_risk_models(ctx, pairs=False)
     risk_common.cash_replay(ctx, singles)
+    risk_common.cash_large_level(ctx)
     nprice = risk_common.price_replay(ctx)
     ctx.sections['price_behaviours_replayed'] = nprice
     for r in singles:
